@@ -197,3 +197,74 @@ theorem gate_not_scan (casc : List (String × String)) (name guard : String) (li
         · simp [htk]; exact ih (by simpa using hp)
 
 end Ford.Calls
+
+namespace Ford.Calls
+open Ford
+
+/-! ### masking of character literals -/
+
+theorem litScan_body (q : Char) (post : Str) (hp : post.head? ≠ some q) :
+    ∀ (body : Str) (pos : Nat) (fb : Option Nat), (∀ c ∈ body, c ≠ q) →
+      litScan q (body ++ q :: post) pos fb = some (pos + body.length + 1) := by
+  intro body
+  induction body with
+  | nil =>
+    intro pos fb _
+    cases post with
+    | nil => simp [litScan]
+    | cons d rest =>
+      have : d ≠ q := by simpa using hp
+      simp [litScan, this]
+  | cons b bs ih =>
+    intro pos fb hb
+    have hbq : b ≠ q := hb b (by simp)
+    have hrest : ∀ c ∈ bs, c ≠ q := fun c hc => hb c (by simp [hc])
+    have := ih (pos + 1) fb hrest
+    cases hbs : bs ++ q :: post with
+    | nil => simp at hbs
+    | cons d rest =>
+      rw [hbs] at this
+      simp only [List.cons_append, hbs, litScan, beq_iff_eq, hbq, if_false, this, List.length_cons]
+      congr 1
+      omega
+
+theorem maskAux_prefix (pre s : Str) (n : Nat) (h : ∀ c ∈ pre, isQuote c = false) :
+    maskAux (pre ++ s) 0 n = pre ++ maskAux s 0 n := by
+  induction pre with
+  | nil => rfl
+  | cons c cs ih =>
+    have hc : isQuote c = false := h c (by simp)
+    simp [maskAux, hc]
+    exact ih (fun d hd => h d (by simp [hd]))
+
+theorem maskAux_skip (xs s : Str) (k n : Nat) :
+    maskAux (xs ++ s) (xs.length + k) n = maskAux s k n := by
+  induction xs with
+  | nil => simp
+  | cons c cs ih =>
+    have : (c :: cs).length + k = (cs.length + k) + 1 := by simp; omega
+    rw [List.cons_append, this, maskAux]
+    exact ih
+
+/-- explicit form of the masking of the first literal of a line -/
+theorem maskAux_literal (q : Char) (hq : isQuote q = true) (body post : Str) (n : Nat)
+    (hb : ∀ c ∈ body, c ≠ q) (hp : post.head? ≠ some q) :
+    maskAux (q :: (body ++ q :: post)) 0 n =
+      (let repl := (toString n).toList
+       let x := repl ++ '"' :: post
+       let e := (litScan '"' x 0 none).getD (repl.length + 1)
+       '"' :: x.take e ++ maskAux post (e - (repl.length + 1)) (n + 1)) := by
+  have h1 := litScan_body q post hp body 0 none hb
+  simp only [Nat.zero_add] at h1
+  simp only [maskAux, hq, h1, if_true]
+  have hd : (body ++ q :: post).drop (body.length + 1) = post := by
+    rw [show body ++ q :: post = (body ++ [q]) ++ post by simp]
+    rw [List.drop_left' (by simp)]
+  simp only [hd]
+  have hs := maskAux_skip (body ++ [q]) post
+    ((litScan '"' ((toString n).toList ++ '"' :: post) 0 none).getD ((toString n).toList.length + 1)
+      - ((toString n).toList.length + 1)) (n + 1)
+  simp only [List.length_append, List.length_singleton, List.append_assoc, List.singleton_append] at hs
+  rw [hs]
+
+end Ford.Calls
